@@ -1038,6 +1038,18 @@ def _min(ip, st, args, kwargs):
 
 @builtin("max")
 def _max(ip, st, args, kwargs):
+    if len(args) == 1:
+        items = concrete_items(ip, st, args[0])
+        if items is not None and items and all(not is_sym(x) for x in items):
+            yield st, max(items)
+            return
+        if items is not None and items and all(kind_of(x) == "int" for x in items):
+            r = to_term(int_of(items[0]))
+            for x in items[1:]:
+                r = tm.Max(r, to_term(int_of(x)))
+            yield st, as_value("int", r)
+            return
+        raise Unsupported("max over %r" % (args[0],))
     if len(args) == 2 and all(kind_of(a) in ("int",) for a in args):
         yield st, as_value("int", tm.Max(to_term(int_of(args[0])), to_term(int_of(args[1]))))
         return
@@ -1698,3 +1710,38 @@ def _str_lower(ip, st, args, kwargs):
     r = str_lower(to_term(s))
     st.assume(tm.Eq(tm.Len(r), tm.Len(to_term(s))))
     yield st, Sym("str", r)
+
+
+# ---- operator console (A-LIB): stdout is a no-op recorded in ghost `stdout`; stdin / getpass are arbitrary
+@register_external("sys.stdout.write")
+def _stdout_write(ip, st, args, kwargs):
+    h = EXTERNALS.get("console.record")
+    if h is not None:
+        h(ip, st, args[0])
+    yield st, None
+
+
+@register_external("sys.stdout.flush")
+def _stdout_flush(ip, st, args, kwargs):
+    yield st, None
+
+
+@register_external("sys.stdin.readline")
+def _stdin_readline(ip, st, args, kwargs):
+    yield st, Sym("str", tm.Fresh("stdin_line", STR))
+
+
+@register_external("getpass.getpass")
+def _getpass(ip, st, args, kwargs):
+    yield st, Sym("str", tm.Fresh("typed_pin", STR))
+
+
+str_rstrip = tm.FunDecl("str.rstrip", [STR], STR)
+
+
+@method("str", "rstrip")
+def _m_rstrip(ip, st, recv, args, kwargs):
+    if not is_sym(recv):
+        yield st, recv.rstrip(*args)
+        return
+    yield st, Sym("str", str_rstrip(recv.term))
